@@ -18,6 +18,7 @@ def jobs(tier):
         job(M, "c07_table", "table/n3/bonds-lineorder", dict(n=3, props="none", symbols=["C", "O"], bond_extra=False), max_seconds=ms),
         job(M, "c07_table", "table/n3/star", dict(n=3, star=True, symbols=["C"], props="none"), max_seconds=ms),
         job(M, "c07_layout", "layout/blank-runs", dict(mode="gap"), max_seconds=ms),
+        job(M, "c07_file", "graph_from_file/tempfile", {}, max_seconds=ms),
         job(M, "c07_layout", "layout/continuation", dict(mode="split"), max_seconds=ms),
         job(M, "c07_layout", "layout/continuation-crlf", dict(mode="split", crlf=True), max_seconds=ms),
     ]
